@@ -277,6 +277,19 @@ def r13ab_rep_structure(ctx):
                             okorder = True
                         elif [U(a) for a in r_.value.args] == names:
                             okorder = True
+        for r_ in walk_no_nested(f.node):
+            # second(*first(...)): the tuple is passed on as it comes
+            if isinstance(r_, ast.Return) and isinstance(
+                    r_.value, ast.Call) and len(r_.value.args) == 1 and \
+                    isinstance(r_.value.args[0], ast.Starred) and \
+                    isinstance(r_.value.args[0].value, ast.Call) and \
+                    not r_.value.keywords:
+                outer = [c.name for c in ctx.in_func(
+                    f, r_).callees_of_call(r_.value)]
+                inner = [c.name for c in ctx.in_func(
+                    f, r_).callees_of_call(r_.value.args[0].value)]
+                if outer == [second] and inner == [first]:
+                    okorder = True
         rep.check(okc and okorder, rule, ctx.fkey(f, None, "composition"),
                   f.loc(), "%s = %s after %s, tuple passed in order" % (
                       name, second, first),
